@@ -1,22 +1,203 @@
 //go:build verif
 
 // Machine-checked contracts for package fri (comment-only, build tag `verif`).
+// Hash functions are the specification functions of package poseidon (bn_p0, bn_hash_or_noop).
 package fri
 
-//@ func (f *Chip) GetInstance(zeta gl.QuadraticExtensionVariable) (res InstanceInfo)
-//@   props C17
+//@ def isbit(b) = b == 0 || b == 1
+
+// ------------------------------------------------------------------ proof of work (C14)
+//@ func (f *Chip) assertLeadingZeros(powWitness gl.Variable, friConfig types.FriConfig)
+//@   props C14 C05
 //@   circuit
+//@   requires chipok(f.gl) && 1 <= friConfig.ProofOfWorkBits && friConfig.ProofOfWorkBits <= 63
+//@   complete_requires aligned(f.gl, 64 - friConfig.ProofOfWorkBits)
+//@   honest powWitness.Limb < pow2(64 - friConfig.ProofOfWorkBits)
+//@   ensures powWitness.Limb < pow2(64 - friConfig.ProofOfWorkBits)
+
+// ------------------------------------------------------------------ Merkle openings against a 16-entry cap (C12)
+// mk_fold: the digest after folding the first k siblings; bit 1 puts the sibling on the left.
+//@ recdef mk_fold(sib []int, bits []int, d int, k int) int = ite(k <= 0, d, bn_p0(0, 0, ite(bits[k-1] == 1, sib[k-1], mk_fold(sib, bits, d, k - 1)), ite(bits[k-1] == 1, mk_fold(sib, bits, d, k - 1), sib[k-1])))
+//@ def capIndex(cb) = cb[0] + 2*cb[1] + 4*cb[2] + 8*cb[3]
+//@ def merkle_ok(leaf, ibits, cbits, mcap, sib) = mk_fold(sib, ibits, bn_hash_or_noop(leaf), len(sib)) == mcap[capIndex(cbits)]
+//@ def merkle_shape(ibits, cbits, mcap, sib) = len(cbits) == 4 && len(mcap) == 16 && len(sib) <= len(ibits)
+//@ def merkle_bits(ibits, cbits, sib) = forall(k, 0, len(sib), isbit(ibits[k])) && forall(k, 0, 4, isbit(cbits[k]))
+
+//@ func (f *Chip) verifyMerkleProofToCapWithCapIndex(leafData []gl.Variable, leafIndexBits []frontend.Variable, capIndexBits []frontend.Variable, merkleCap variables.FriMerkleCap, proof *variables.FriMerkleProof)
+//@   props C12 C20
+//@   circuit
+//@   requires canonSeq(leafData)
+//@   complete_requires merkle_shape(leafIndexBits, capIndexBits, merkleCap, proof.Siblings)
+//@   honest merkle_bits(leafIndexBits, capIndexBits, proof.Siblings) && merkle_ok(leafData, leafIndexBits, capIndexBits, merkleCap, proof.Siblings)
+//@   ensures merkle_shape(leafIndexBits, capIndexBits, merkleCap, proof.Siblings)
+//@   ensures merkle_bits(leafIndexBits, capIndexBits, proof.Siblings)
+//@   ensures merkle_ok(leafData, leafIndexBits, capIndexBits, merkleCap, proof.Siblings)
+//@   loop 0 invariant -1 <= rangeindex && rangeindex < len(proof.Siblings) && rangeindex < len(leafIndexBits) &&
+//@        forall(k, 0, rangeindex + 1, isbit(leafIndexBits[k])) &&
+//@        currentDigest == mk_fold(proof.Siblings, leafIndexBits, bn_hash_or_noop(leafData), rangeindex + 1)
+
+//@ def initial_ok(p, ibits, cbits, caps) = len(p.EvalsProofs) == len(caps) && forall(i, 0, len(caps),
+//@        merkle_shape(ibits, cbits, caps[i], p.EvalsProofs[i].MerkleProof.Siblings) && merkle_bits(ibits, cbits, p.EvalsProofs[i].MerkleProof.Siblings) &&
+//@        merkle_ok(p.EvalsProofs[i].Elements, ibits, cbits, caps[i], p.EvalsProofs[i].MerkleProof.Siblings))
+
+//@ func (f *Chip) verifyInitialProof(xIndexBits []frontend.Variable, proof *variables.FriInitialTreeProof, initialMerkleCaps []variables.FriMerkleCap, capIndexBits []frontend.Variable)
+//@   props C12 C20
+//@   circuit
+//@   requires forall(i, 0, len(proof.EvalsProofs), canonSeq(proof.EvalsProofs[i].Elements))
+//@   complete_requires len(proof.EvalsProofs) == len(initialMerkleCaps)
+//@   honest initial_ok(proof, xIndexBits, capIndexBits, initialMerkleCaps)
+//@   ensures initial_ok(proof, xIndexBits, capIndexBits, initialMerkleCaps)
+//@   loop 0 invariant 0 <= i && i <= len(initialMerkleCaps) && len(proof.EvalsProofs) == len(initialMerkleCaps) && forall(k, 0, i,
+//@        merkle_shape(xIndexBits, capIndexBits, initialMerkleCaps[k], proof.EvalsProofs[k].MerkleProof.Siblings) && merkle_bits(xIndexBits, capIndexBits, proof.EvalsProofs[k].MerkleProof.Siblings) &&
+//@        merkle_ok(proof.EvalsProofs[k].Elements, xIndexBits, capIndexBits, initialMerkleCaps[k], proof.EvalsProofs[k].MerkleProof.Siblings))
+
+// ------------------------------------------------------------------ openings and final polynomial
+//@ func (f *Chip) finalPolyEval(finalPoly variables.PolynomialCoeffs, point gl.QuadraticExtensionVariable) (res gl.QuadraticExtensionVariable)
+//@   props C13 C05
+//@   circuit
+//@   requires chipok(f.gl) && canonQE(point) && forall(k, 0, len(finalPoly.Coeffs), canonQE(finalPoly.Coeffs[k]))
+//@   ensures canonQE(res)
+//@   ensures res == qe_horner(finalPoly.Coeffs, point, 0)
+//@   loop 0 invariant -1 <= i && i < len(finalPoly.Coeffs) && canonQE(ret) && ret == qe_horner(finalPoly.Coeffs, point, i + 1)
+
+//@ func (f *Chip) fromOpeningsAndAlpha(openings *Openings, alpha gl.QuadraticExtensionVariable) (res []gl.QuadraticExtensionVariable)
+//@   props C13 C05
+//@   circuit
+//@   requires chipok(f.gl) && canonQE(alpha) && forall(b, 0, len(openings.Batches), forall(k, 0, len(openings.Batches[b].Values), canonQE(openings.Batches[b].Values[k])))
+//@   ensures len(res) == len(openings.Batches)
+//@   ensures forall(b, 0, len(openings.Batches), canonQE(res[b]) && res[b] == qe_horner(openings.Batches[b].Values, alpha, 0))
+//@   loop 0 invariant -1 <= rangeindex && rangeindex < len(openings.Batches) && len(reducedOpenings) == rangeindex + 1 &&
+//@        forall(b, 0, rangeindex + 1, canonQE(reducedOpenings[b]) && reducedOpenings[b] == qe_horner(openings.Batches[b].Values, alpha, 0))
+
+// ToOpenings: plonky2 FriOpenings order - batch 0 (at zeta) = constants ++ sigmas ++ wires ++ zs ++ partial products ++ quotient chunks,
+// batch 1 (at g*zeta) = zs_next.
+//@ def seg_eq(dst, off, src) = forall(k, 0, len(src), dst[off + k] == src[k])
+//@ func (f *Chip) ToOpenings(c variables.OpeningSet) (res Openings)
+//@   props C11 C13 C20
+//@   circuit
+//@   ensures len(res.Batches) == 2
+//@   ensures len(res.Batches[0].Values) == len(c.Constants) + len(c.PlonkSigmas) + len(c.Wires) + len(c.PlonkZs) + len(c.PartialProducts) + len(c.QuotientPolys)
+//@   ensures seg_eq(res.Batches[0].Values, 0, c.Constants)
+//@   ensures seg_eq(res.Batches[0].Values, len(c.Constants), c.PlonkSigmas)
+//@   ensures seg_eq(res.Batches[0].Values, len(c.Constants) + len(c.PlonkSigmas), c.Wires)
+//@   ensures seg_eq(res.Batches[0].Values, len(c.Constants) + len(c.PlonkSigmas) + len(c.Wires), c.PlonkZs)
+//@   ensures seg_eq(res.Batches[0].Values, len(c.Constants) + len(c.PlonkSigmas) + len(c.Wires) + len(c.PlonkZs), c.PartialProducts)
+//@   ensures seg_eq(res.Batches[0].Values, len(c.Constants) + len(c.PlonkSigmas) + len(c.Wires) + len(c.PlonkZs) + len(c.PartialProducts), c.QuotientPolys)
+//@   ensures len(res.Batches[1].Values) == len(c.PlonkZsNext) && seg_eq(res.Batches[1].Values, 0, c.PlonkZsNext)
+
+// ------------------------------------------------------------------ subgroup points
+// x = g * w^bitreverse(index): the exponentiation consumes the index bits from the most significant one.
+// product over the bits: prod_i (1 + b_i * (base^(2^i) - 1))  - the value base^(sum b_i 2^i)
+//@ def ebits_step(acc, bit, bp) = ((((((bp - 1) % pow2(64)) * acc) % P) * bit) % P + acc) % P
+//@ recdef gl_ebits(bits []int, base int, k int) int = ite(k <= 0, 1, ebits_step(gl_ebits(bits, base, k - 1), bits[k-1], gl_pow(base, pow2(k - 1))))
+
+//@ func (f *Chip) expFromBitsConstBase(base goldilocks.Element, exponentBits []frontend.Variable) (res gl.Variable)
+//@   props C13 C05
+//@   circuit
+//@   requires chipok(f.gl) && base != 0 && len(exponentBits) <= 62 && forall(k, 0, len(exponentBits), isbit(exponentBits[k]))
+//@   ensures canon(res)
+//@   ensures res.Limb == gl_ebits(exponentBits, base, len(exponentBits))
+//@   loop 0 invariant -1 <= rangeindex && rangeindex < len(exponentBits) && canon(product) && product.Limb == gl_ebits(exponentBits, base, rangeindex + 1)
+
+//@ func (f *Chip) calculateSubgroupX(xIndexBits []frontend.Variable, nLog uint64) (res gl.Variable)
+//@   props C13 C05
+//@   circuit
+//@   requires chipok(f.gl) && nLog <= 32 && len(xIndexBits) <= 62 && forall(k, 0, len(xIndexBits), isbit(xIndexBits[k]))
+//@   ghost xIndexBitsRev []frontend.Variable
+//@   ensures len(xIndexBitsRev) == len(xIndexBits) && forall(k, 0, len(xIndexBits), xIndexBitsRev[k] == xIndexBits[len(xIndexBits) - 1 - k])
+//@   ensures canon(res)
+//@   ensures res.Limb == (7 * gl_ebits(xIndexBitsRev, gl_sq_iter0(1753635133440165772, 32 - nLog), len(xIndexBits))) % P
+//@   loop 0 invariant -1 <= i && i < len(xIndexBits) && len(xIndexBitsRev) == len(xIndexBits) - 1 - i && forall(k, 0, len(xIndexBitsRev), xIndexBitsRev[k] == xIndexBits[len(xIndexBits) - 1 - k])
+
+// ------------------------------------------------------------------ proof shape (C20): plonky2 validate_fri_proof_shape
+//@ def shape_round(q, instance, params) = len(q.InitialTreesProof.EvalsProofs) == len(instance.Oracles) &&
+//@     forall(i, 0, len(instance.Oracles), len(q.InitialTreesProof.EvalsProofs[i].Elements) == instance.Oracles[i].NumPolys + ite(instance.Oracles[i].Blinding && params.Hiding, 4, 0) &&
+//@          len(q.InitialTreesProof.EvalsProofs[i].MerkleProof.Siblings) + params.Config.CapHeight == params.DegreeBits + params.Config.RateBits) &&
+//@     len(q.Steps) == len(params.ReductionArityBits) &&
+//@     forall(i, 0, len(q.Steps), len(q.Steps[i].Evals) == pow2(params.ReductionArityBits[i]) &&
+//@          len(q.Steps[i].MerkleProof.Siblings) + params.Config.CapHeight == params.DegreeBits + params.Config.RateBits - arity_sum(params.ReductionArityBits, i + 1))
+//@ def shape_fri(proof, instance, params) = forall(c, 0, len(proof.CommitPhaseMerkleCaps), len(proof.CommitPhaseMerkleCaps[c]) == pow2(params.Config.CapHeight)) &&
+//@     forall(r, 0, len(proof.QueryRoundProofs), shape_round(proof.QueryRoundProofs[r], instance, params)) &&
+//@     len(proof.FinalPoly.Coeffs) == pow2(params.DegreeBits - arity_sum(params.ReductionArityBits, len(params.ReductionArityBits)))
+//@ def oracles_small(instance) = forall(i, 0, len(instance.Oracles), instance.Oracles[i].NumPolys <= pow2(40))
+
+//@ func validateFriProofShape(proof *variables.FriProof, instance InstanceInfo, params *types.FriParams)
+//@   props C20
+//@   plain
+//@   requires params_small(params) && oracles_small(instance)
+//@   ensures shape_fri(proof, instance, params)
+//@   loop 0 invariant -1 <= rangeindex && rangeindex < len(proof.CommitPhaseMerkleCaps) && forall(c, 0, rangeindex + 1, len(proof.CommitPhaseMerkleCaps[c]) == pow2(params.Config.CapHeight))
+//@   loop 1 invariant -1 <= rangeindex1 && rangeindex1 < len(proof.QueryRoundProofs) && forall(r, 0, rangeindex1 + 1, shape_round(proof.QueryRoundProofs[r], instance, params))
+//@   loop 2 invariant -1 <= rangeindex2 && rangeindex2 < len(initialTreesProof.EvalsProofs) && len(initialTreesProof.EvalsProofs) == len(instance.Oracles) &&
+//@        forall(i, 0, rangeindex2 + 1, len(initialTreesProof.EvalsProofs[i].Elements) == instance.Oracles[i].NumPolys + ite(instance.Oracles[i].Blinding && params.Hiding, 4, 0) &&
+//@          len(initialTreesProof.EvalsProofs[i].MerkleProof.Siblings) + params.Config.CapHeight == params.DegreeBits + params.Config.RateBits)
+//@   loop 3 invariant -1 <= rangeindex3 && rangeindex3 < len(steps) && len(steps) == len(params.ReductionArityBits) &&
+//@        codewordLenBits == params.DegreeBits + params.Config.RateBits - arity_sum(params.ReductionArityBits, rangeindex3 + 1) &&
+//@        forall(i, 0, rangeindex3 + 1, len(steps[i].Evals) == pow2(params.ReductionArityBits[i]) &&
+//@          len(steps[i].MerkleProof.Siblings) + params.Config.CapHeight == params.DegreeBits + params.Config.RateBits - arity_sum(params.ReductionArityBits, i + 1))
+
+// ------------------------------------------------------------------ query rounds (structure, Merkle checks, bounds; the algebraic
+// content of friCombineInitial / computeEvaluation is not specified functionally here)
+//@ def canonQEs(l) = forall(k, 0, len(l), canonQE(l[k]))
+//@ def polys_in_range(instance, proof) = forall(b, 0, len(instance.Batches), forall(k, 0, len(instance.Batches[b].Polynomials),
+//@        instance.Batches[b].Polynomials[k].OracleIndex < len(proof.EvalsProofs) &&
+//@        instance.Batches[b].Polynomials[k].PolynomialInfo < len(proof.EvalsProofs[instance.Batches[b].Polynomials[k].OracleIndex].Elements)))
+
+//@ func (f *Chip) friCombineInitial(instance InstanceInfo, proof variables.FriInitialTreeProof, friAlpha gl.QuadraticExtensionVariable, subgroupX_QE gl.QuadraticExtensionVariable, precomputedReducedEval []gl.QuadraticExtensionVariable) (res gl.QuadraticExtensionVariable)
+//@   props C05 C20
+//@   circuit
+//@   requires chipok(f.gl) && sameapi(f.api, f.api) && canonQE(friAlpha) && canonQE(subgroupX_QE) && canonQEs(precomputedReducedEval)
+//@   requires forall(b, 0, len(instance.Batches), canonQE(instance.Batches[b].Point))
+//@   requires forall(i, 0, len(proof.EvalsProofs), canonSeq(proof.EvalsProofs[i].Elements))
+//@   complete_requires len(instance.Batches) == len(precomputedReducedEval) && polys_in_range(instance, proof)
+//@   honest forall(b, 0, len(instance.Batches), !(subgroupX_QE[0].Limb == instance.Batches[b].Point[0].Limb && subgroupX_QE[1].Limb == instance.Batches[b].Point[1].Limb))
+//@   ensures canonQE(res) && len(instance.Batches) == len(precomputedReducedEval)
+//@   loop 0 invariant 0 <= i && i <= len(instance.Batches) && canonQE(sum)
+//@   loop 1 invariant -1 <= rangeindex1 && rangeindex1 < len(batch.Polynomials) && canonQEs(evals)
+
+//@ func assertNoncanonicalIndicesOK(friParams types.FriParams)
+//@   props C20
+//@   plain
 //@   flag trusted
 //@   ensures true
 
-//@ func (f *Chip) ToOpenings(c variables.OpeningSet) (res Openings)
-//@   props C17
-//@   circuit
-//@   flag trusted
-//@   ensures true
+//@ func (f *Chip) computeEvaluation(x gl.Variable, xIndexWithinCosetBits []frontend.Variable, arityBits uint64, evals []gl.QuadraticExtensionVariable, beta gl.QuadraticExtensionVariable) (res gl.QuadraticExtensionVariable)
+//@   props C05 C20
+//@   circuit sound-only
+//@   requires chipok(f.gl) && canon(x) && canonQE(beta) && canonQEs(evals)
+//@   requires arityBits == 4 && len(evals) == 16 && len(xIndexWithinCosetBits) == 4 && forall(k, 0, 4, isbit(xIndexWithinCosetBits[k]))
+//@   ensures canonQE(res)
+
+//@ def params_ok(p) = params_small(p) && p.Config.CapHeight == 4 && p.DegreeBits + p.Config.RateBits <= 32 && 4 <= p.DegreeBits + p.Config.RateBits && 1 <= p.Config.ProofOfWorkBits && p.Config.ProofOfWorkBits <= 63
+
+//@ func (f *Chip) verifyQueryRound(instance InstanceInfo, challenges *variables.FriChallenges, precomputedReducedEval []gl.QuadraticExtensionVariable, initialMerkleCaps []variables.FriMerkleCap, proof *variables.FriProof, xIndex gl.Variable, n uint64, nLog uint64, roundProof *variables.FriQueryRound)
+//@   props C12 C20 C05
+//@   circuit sound-only
+//@   requires chipok(f.gl) && params_ok(f.friParams) && nLog == f.friParams.DegreeBits + f.friParams.Config.RateBits
+//@   requires canonQE(challenges.FriAlpha) && canonQEs(challenges.FriBetas) && canonQEs(precomputedReducedEval) && canonQEs(proof.FinalPoly.Coeffs)
+//@   requires forall(b, 0, len(instance.Batches), canonQE(instance.Batches[b].Point))
+//@   requires canonRound(roundProof)
+//@   requires len(roundProof.Steps) == len(f.friParams.ReductionArityBits) && forall(i, 0, len(roundProof.Steps), len(roundProof.Steps[i].Evals) == pow2(f.friParams.ReductionArityBits[i]))
+//@   ghost idxBits []frontend.Variable = atentry(xIndexBits, 0)
+//@   ghost capBits []frontend.Variable = capIndexBits
+//@   ensures len(idxBits) == nLog && forall(k, 0, len(idxBits), idxBits[k] == ((xIndex.Limb % P) / pow2(k)) % 2)
+//@   ensures len(capBits) == 4 && forall(k, 0, 4, capBits[k] == idxBits[nLog - 4 + k])
+//@   ensures initial_ok(roundProof.InitialTreesProof, idxBits, capBits, initialMerkleCaps)
+//@   ensures len(roundProof.Steps) >= len(f.friParams.ReductionArityBits) && forall(i, 0, len(f.friParams.ReductionArityBits), f.friParams.ReductionArityBits[i] == 4 && len(roundProof.Steps[i].Evals) == 16)
+//@   loop 0 invariant -1 <= rangeindex && rangeindex < len(f.friParams.ReductionArityBits) && canonQE(oldEval) && canon(subgroupX) &&
+//@        len(xIndexBits) == nLog - 4 * (rangeindex + 1) && forall(k, 0, len(xIndexBits), isbit(xIndexBits[k])) &&
+//@        forall(i, 0, rangeindex + 1, f.friParams.ReductionArityBits[i] == 4 && i < len(roundProof.Steps) && len(roundProof.Steps[i].Evals) == 16)
+
+//@ def canonOpeningBatches(o) = forall(b, 0, len(o.Batches), canonQEs(o.Batches[b].Values))
+//@ def fri_inputs_canon(p) = forall(i, 0, len(p.QueryRoundProofs), canonRound(p.QueryRoundProofs[i])) && canonQEs(p.FinalPoly.Coeffs)
 
 //@ func (f *Chip) VerifyFriProof(instance InstanceInfo, openings Openings, friChallenges *variables.FriChallenges, initialMerkleCaps []variables.FriMerkleCap, friProof *variables.FriProof)
-//@   props C17
-//@   circuit
-//@   flag trusted
-//@   ensures true
+//@   props C14 C12 C20 C05
+//@   circuit sound-only
+//@   requires chipok(f.gl) && params_ok(f.friParams) && oracles_small(instance)
+//@   requires canonQE(friChallenges.FriAlpha) && canonQEs(friChallenges.FriBetas) && canonOpeningBatches(openings) && fri_inputs_canon(friProof)
+//@   requires forall(b, 0, len(instance.Batches), canonQE(instance.Batches[b].Point))
+//@   ensures[pow] friChallenges.FriPowResponse.Limb < pow2(64 - f.friParams.Config.ProofOfWorkBits)
+//@   ensures[shape] shape_fri(friProof, instance, f.friParams)
+//@   ensures[rounds] len(friProof.QueryRoundProofs) == f.friParams.Config.NumQueryRounds && len(friChallenges.FriQueryIndices) == len(friProof.QueryRoundProofs)
+//@   loop 0 invariant -1 <= rangeindex && rangeindex < len(friChallenges.FriQueryIndices)
